@@ -95,8 +95,20 @@ Unsigned(t) == IF Len(t) > 0 /\ t[1] \in {43, 45} THEN Tail(t) ELSE t
 NumLeafOk(c, x) == LET ts == SqlTokens(LeafSqlOf(c, x))
                        nums == { i \in 1..Len(ts) : ts[i][1] = "NUM" } IN
                    \E i \in nums : LowerSeq(ts[i][2]) = LowerSeq(Unsigned(StrCps(x[3])))
+\* ... and every boolean literal leaf is the one token that stands for ITS value in the dialect (TRUE / FALSE, or 1 / 0),
+\* however the literal was spelled in the filter
+RECURSIVE BoolLeaves(_)
+BoolLeaves(x) == CASE x[1] = "Lit" -> (IF x[2] = "Boolean" THEN {x} ELSE {})
+                   [] x[1] \in {"Id", "List"} -> {}
+                   [] x[1] = "Call" -> UNION { IF KeepArg(x[2][3], i, x[3][i]) THEN {} ELSE BoolLeaves(x[3][i]) : i \in 1..Len(x[3]) }
+                   [] OTHER -> LET ks == Sub(x) IN UNION { BoolLeaves(ks[i]) : i \in 1..Len(ks) }
+BoolLeafOk(c, x) == LET ts == SqlTokens(LeafSqlOf(c, x))
+                        isTrue == LowerSeq(StrCps(x[3])) = StrCps("true") IN
+                    \/ ts = << <<"WORD", StrCps(IF isTrue THEN "TRUE" ELSE "FALSE")>> >>
+                    \/ ts = << <<"NUM", StrCps(IF isTrue THEN "1" ELSE "0")>> >>
 LeafLiteralsOk(c) == /\ \A x \in StrLeaves(c.tree) : SqlTokens(LeafSqlOf(c, x)) = << <<"STR", x[3]>> >>
                      /\ \A x \in NumLeaves(c.tree) : NumLeafOk(c, x)
+                     /\ \A x \in BoolLeaves(c.tree) : BoolLeafOk(c, x)
 VerdictOf(c) ==
   IF ~WellFormed(c.out) THEN "not-wellformed"
   ELSE IF ~LeafLiteralsOk(c) THEN "literal-content-differs"
